@@ -405,6 +405,16 @@ impl<'a> Machine<'a> {
                         Ok(None)
                     }
                     _ => {
+                        if matches!(self.var_type(var), Some(VariableType::Component) | Some(VariableType::AnonymousComponent)) {
+                            // Component instantiation: the template arguments are evaluated, the
+                            // instantiation itself is opaque (ports are answered by the world).
+                            if let Expression::Call { args, .. } = rhe {
+                                for a in args {
+                                    self.eval(a, obs)?;
+                                }
+                            }
+                            return Ok(None);
+                        }
                         let value = self.eval(rhe, obs)?;
                         let value = obs.write(block, index, stmt, value);
                         match self.var_type(var) {
